@@ -31,7 +31,7 @@ func work() string {
 		if err != nil {
 			fmt.Fprintln(os.Stderr, "protocheck:", err)
 			cleanupAll()
-		os.Exit(3)
+			os.Exit(3)
 		}
 		workDir = d
 	})
@@ -74,7 +74,7 @@ func thriftrw() string {
 		if outp, err := cmd.CombinedOutput(); err != nil {
 			fmt.Fprintf(os.Stderr, "protocheck: building thriftrw from %s failed: %v\n%s\n", repoRoot(), err, outp)
 			cleanupAll()
-		os.Exit(3)
+			os.Exit(3)
 		}
 		thriftrwBin = bin
 	})
